@@ -814,3 +814,42 @@ def poly_eq_hash_consistent(spec, cfg, tier, seed):
     return [ObResult(prop=spec.prop, ob=f"{spec.id}/equal_objects_equal_hashes", config=str(cfg), function=spec.function, engine="E1", backend="z3", kind="proof",
                      verdict="discharged" if r == z3.unsat else "undecided", solver_s=round(time.time() - t0, 3), wall_s=round(time.time() - t0, 3),
                      detail="from the contracts of __eq__ (value equality) and __hash__ (hash of value; Python's int hash as an uninterpreted function)")]
+
+
+# ================================================================================ several fields in one process (history)
+@obligation("C18.field_sequences", function=A + "FiniteBifield.__init__; " + A + "FiniteBifield.__call__; " + A + "FiniteBifieldElement.__mul__; " + A + "FiniteBifieldElement.inverse; " + A + "FiniteBifieldElement.minimal_polynomial; " + A + "FiniteBifieldElement.__pow__",
+            configs=lambda tier: ["ascending", "interleaved"] + (["long"] if tier == "thorough" else []), kind="custom", engine="standin")
+def field_sequences(spec, cfg, tier, seed):
+    """bounded: several fields GF(2^m) live in ONE process, built and used in turn (two objects of the same m included); after every
+    construction ALL fields built so far are re-examined: products, inverses, powers, minimal polynomials (memoised per element) and
+    the elements handed out by F(v) (cached per field) must be those of THEIR OWN field (vk.ground with that field's modulus)"""
+    mod = _alg()
+    order = {"ascending": [2, 3, 4, 5], "interleaved": [4, 3, 4, 2, 3, 5, 3], "long": [3, 6, 3, 4, 7, 4, 5, 8, 2, 6]}[str(cfg)]
+    t0 = time.time()
+    fails, counts = {}, {}
+
+    def chk(name, ok, w):
+        counts[name] = counts.get(name, 0) + 1
+        if not ok and name not in fails:
+            fails[name] = w
+
+    built = []
+    for step, m in enumerate(order):
+        F = mod.FiniteBifield(m)
+        built.append((m, F))
+        for (mm, FF) in built:
+            M = FF.modulus.value
+            w0 = {"sequence": order, "after_step": step, "field_m": mm}
+            chk("modulus_degree", Gd.pdeg(M) == mm and FF.size == 2**mm if hasattr(FF, "size") else Gd.pdeg(M) == mm, w0)
+            E = [FF(v) for v in range(2**mm)]
+            chk("call_returns_own_field_elements", all(e.value == v and e.field is FF for v, e in enumerate(E)), w0)
+            lim = range(2**mm) if mm <= 4 else range(0, 2**mm, 3)
+            for a in lim:
+                for b in lim:
+                    chk("product", (E[a] * E[b]).value == Gd.pmod(Gd.pmul(a, b), M), dict(w0, a=a, b=b))
+                if a:
+                    chk("inverse", Gd.pmod(Gd.pmul(a, E[a].inverse().value), M) == 1, dict(w0, a=a))
+                chk("power", (E[a] ** 5).value == _ipow(a, 5, M), dict(w0, a=a, e=5))
+                mp, orbit = _coset_minpoly(a, mm, M)
+                chk("minimal_polynomial", mp is not None and E[a].minimal_polynomial().value == mp, dict(w0, a=a))
+    return [_B(spec, cfg, k, n, fails.get(k), t0, f"fields m = {order} built in this order in one process; every field re-examined after every construction") for k, n in counts.items()]
